@@ -10,6 +10,10 @@ EXTENDS Encoding
 \* ---------------------------------------------------------------- the menu
 \* every item is a child of container a:c, except where noted
 EnumT == TyEnum(<<"one", "two">>)
+\* unions without and with an identityref member, and one whose identityref sits in a nested union
+UnNoId == TyUnion(<<Ty("uint8"), EnumT>>)
+UnId == TyUnion(<<TyIdref("a:base-id"), Ty("uint8")>>)
+UnNest == TyUnion(<<TyUnion(<<TyIdref("a:base-id"), EnumT>>), Ty("uint8")>>)
 Menu == <<
   Leaf("i8", "a", Ty("int8")),                                                        \* 1
   Leaf("i32", "a", Ty("int32")),                                                      \* 2
@@ -46,8 +50,29 @@ Menu == <<
   List("ld", "a", "k", FALSE, <<Leaf("k", "a", TyDec(3)), Leaf("t", "a", Ty("boolean"))>>),             \* 29
   List("lt", "a", "k", TRUE, <<Leaf("k", "a", Ty("boolean"))>>),                                        \* 30
   \* a constraint over the default-decorated tree: unique over a leaf with a default
-  ListU("lq", "a", "k", FALSE, "port", <<Leaf("k", "a", Ty("string")), LeafD("port", "a", Ty("int8"), "5")>>)   \* 31
+  ListU("lq", "a", "k", FALSE, "port", <<Leaf("k", "a", Ty("string")), LeafD("port", "a", Ty("int8"), "5")>>),  \* 31
+  \* every type that has a lexical space of its own as a leaf, a leaf-list entry and a list key: uint8, boolean,
+  \* enumeration, pattern string, identityref (above) and unions without / with an identityref member
+  Leaf("un", "a", UnNoId),                                                                              \* 32
+  Leaf("ui", "a", UnId),                                                                                \* 33
+  List("ke", "a", "k", FALSE, <<Leaf("k", "a", EnumT), LeafList("w", "a", Ty("uint8"), TRUE)>>),        \* 34
+  List("kp", "a", "k", TRUE, <<Leaf("k", "a", TyDigits), LeafList("w", "a", Ty("boolean"), FALSE)>>),   \* 35
+  List("k8", "a", "k", FALSE, <<Leaf("k", "a", Ty("uint8")), LeafList("w", "a", EnumT, TRUE)>>),        \* 36
+  List("kun", "a", "k", TRUE, <<Leaf("k", "a", UnNoId), LeafList("w", "a", TyDigits, FALSE)>>),         \* 37
+  List("kui", "b", "k", FALSE, <<Leaf("k", "b", UnNest), LeafList("w", "b", UnId, TRUE)>>),             \* 38  augment from b
+  LeafList("llun", "a", UnNoId, TRUE),                                                                  \* 39
+  \* members of the cases of a choice (RFC 6020 7.9): in the data tree they are children of a:c
+  InCase(Leaf("cl", "a", Ty("uint8")), "ch:ca"),                                                        \* 40
+  InCase(Leaf("ce", "a", Ty("empty")), "ch:ca"),                                                        \* 41
+  InCase(Cont("cc", "a", FALSE, <<Leaf("cx", "a", Ty("string"))>>), "ch:cb"),                           \* 42
+  InCase(List("cli", "a", "k", TRUE, <<Leaf("k", "a", Ty("string")), LeafList("cw", "a", Ty("int8"), FALSE)>>), "ch:cb"),   \* 43
+  InCase(LeafList("cll", "a", Ty("string"), FALSE), "ch:cll")                                           \* 44  shorthand case
 >>
+ChoiceNames == <<"ch">>
+CaseTags == <<"ch:ca", "ch:cb", "ch:cll">>
+\* the collections of the items up to SizedFullMax get every size of Sizes, the later ones (the same node kinds
+\* with other key / entry types) the sizes of SizesMany
+SizedFullMax == 31
 NMenu == Len(Menu)
 TopB == {22}
 RECURSIVE PickSeq(_, _, _)
@@ -57,13 +82,16 @@ PickSeq(S, i, only) == IF i > NMenu THEN << >>
 Schema(S) == Root(<<Cont("c", "a", FALSE, PickSeq(S, 1, FALSE))>> \o PickSeq(S, 1, TRUE))
 
 \* --------------------------------------------------------------- YANG text
+RECURSIVE RType(_, _), RTypes(_, _, _)
+RTypes(mems, mod, i) == IF i > Len(mems) THEN "" ELSE RType(mems[i], mod) \o RTypes(mems, mod, i + 1)
 RType(ty, mod) ==
   CASE ty.b = "decimal64" -> "type decimal64 { fraction-digits " \o ToString(ty.fd) \o "; } "
     [] ty.b = "enumeration" -> "type enumeration { enum one; enum two; } "
     [] ty.b = "string" /\ ty.pat = "digits" -> "type string { pattern \"[0-9]+\"; } "
     [] ty.b = "identityref" -> "type identityref { base " \o (IF mod = "a" THEN "base-id" ELSE "a:base-id") \o "; } "
+    [] ty.b = "union" -> "type union { " \o RTypes(ty.mem, mod, 1) \o "} "
     [] OTHER -> "type " \o ty.b \o "; "
-RECURSIVE RNode(_), RNodes(_, _)
+RECURSIVE RNode(_), RNodes(_, _), RChoices(_, _), RCases(_, _), RSeq(_, _)
 RNode(sn) ==
   CASE sn.k = "leaf" -> "leaf " \o sn.n \o " { " \o RType(sn.ty, sn.mod) \o (IF sn.dflt # "" THEN "default " \o sn.dflt \o "; " ELSE "") \o "} "
     [] sn.k = "ll" -> "leaf-list " \o sn.n \o " { " \o RType(sn.ty, sn.mod)
@@ -71,7 +99,20 @@ RNode(sn) ==
     [] sn.k = "cont" -> "container " \o sn.n \o " { " \o (IF sn.pres THEN "presence \"p\"; " ELSE "") \o RNodes(sn.kids, 1) \o "} "
     [] sn.k = "list" -> "list " \o sn.n \o " { key " \o sn.key \o "; " \o (IF sn.user THEN "ordered-by user; " ELSE "")
                         \o (IF sn.uniq # "" THEN "unique \"" \o sn.uniq \o "\"; " ELSE "") \o RNodes(sn.kids, 1) \o "} "
-RNodes(kids, i) == IF i > Len(kids) THEN "" ELSE RNode(kids[i]) \o RNodes(kids, i + 1)
+\* the nodes outside any choice, then every choice with its cases (a case named like its only node is written in
+\* the shorthand form, RFC 6020 7.9.2)
+RSeq(kids, i) == IF i > Len(kids) THEN "" ELSE RNode(kids[i]) \o RSeq(kids, i + 1)
+RNodes(kids, i) == IF i > Len(kids) THEN RChoices(kids, 1) ELSE (IF kids[i].cs = "" THEN RNode(kids[i]) ELSE "") \o RNodes(kids, i + 1)
+RChoices(kids, c) ==
+  IF c > Len(ChoiceNames) THEN ""
+  ELSE LET ms == SelectSeq(kids, LAMBDA x : x.cs # "" /\ ChoiceOf(x.cs) = ChoiceNames[c]) IN
+       (IF ms = << >> THEN "" ELSE "choice " \o ChoiceNames[c] \o " { " \o RCases(ms, 1) \o "} ") \o RChoices(kids, c + 1)
+RCases(ms, j) ==
+  IF j > Len(CaseTags) THEN ""
+  ELSE LET cm == SelectSeq(ms, LAMBDA x : x.cs = CaseTags[j]) IN
+       (IF cm = << >> THEN ""
+        ELSE IF Len(cm) = 1 /\ cm[1].n = CaseOf(CaseTags[j]) THEN RNode(cm[1])
+        ELSE "case " \o CaseOf(CaseTags[j]) \o " { " \o RSeq(cm, 1) \o "} ") \o RCases(ms, j + 1)
 OfMod(kids, mod) == SelectSeq(kids, LAMBDA x : x.mod = mod)
 YangA(S) == "module a { namespace \"urn:a\"; prefix a; identity base-id; identity loc-id { base base-id; } "
             \o "container c { " \o RNodes(OfMod(PickSeq(S, 1, FALSE), "a"), 1) \o "} }"
@@ -92,6 +133,8 @@ StrVals(wide) == IF wide THEN <<"x", "", "a b", "{22}q{5C}", "{3C}{26}{3E}{27}",
                                 "true", "12", " lead", "null", "a:b", "]]{3E}", "c{D}r",
                                 "d{7F}l", "n{85}{9F}", "s/l{5C}/", "{E0001}g", "{301}", "z{200B}{2028}w", "{FFFD}">>
                  ELSE <<"x", "{22}{3C}{26}{E9}{7F}">>
+RECURSIVE ValsOf(_, _, _), FlatVals(_, _, _)
+FlatVals(mems, mod, i) == IF i > Len(mems) THEN << >> ELSE ValsOf(mems[i], mod, TRUE) \o FlatVals(mems, mod, i + 1)
 ValsOf(ty, mod, wide) ==
   LET b == ty.b IN
   CASE b = "int8" -> IF wide THEN <<"-128", "127", "0", "5">> ELSE <<"-128", "5">>
@@ -110,7 +153,14 @@ ValsOf(ty, mod, wide) ==
     [] b = "boolean" -> <<"true", "false">>
     [] b = "enumeration" -> ty.en
     [] b = "identityref" -> IF mod = "a" THEN <<"loc-id", "b:for-id">> ELSE <<"for-id", "a:loc-id">>
-KeyVals(ty, mod) == CASE ty.b = "string" -> <<"kb", "ka", "k {22}{7F}c">>
+    \* union: the values of every member; two classes: a value of the first and one of the last member
+    [] b = "union" -> IF wide THEN FlatVals(ty.mem, mod, 1)
+                      ELSE <<ValsOf(ty.mem[1], mod, FALSE)[1], ValsOf(ty.mem[Len(ty.mem)], mod, FALSE)[2]>>
+KeyVals(ty, mod) == CASE ty.b = "string" /\ ty.pat = "digits" -> <<"12", "007">>
+                      [] ty.b = "uint8" -> <<"7", "255">>
+                      [] ty.b = "enumeration" -> ty.en
+                      [] ty.b = "union" -> LET w == ValsOf(ty, mod, TRUE) IN <<w[1], w[Len(w)], w[2]>>
+                      [] ty.b = "string" /\ ty.pat # "digits" -> <<"kb", "ka", "k {22}{7F}c">>
                       [] ty.b = "int8" -> <<"-3", "2">>
                       [] ty.b = "identityref" -> IF mod = "a" THEN <<"loc-id", "b:for-id">> ELSE <<"for-id", "a:loc-id">>
                       [] ty.b = "decimal64" -> <<"1.5", "-0.001", "2.0">>
@@ -135,7 +185,7 @@ TreesOf(sn, wide) ==
          ELSE {N(sn.n, <<ValsOf(sn.ty, sn.mod, wide)[i]>>, << >>) : i \in 1..Len(ValsOf(sn.ty, sn.mod, wide))}
     [] sn.k = "ll" -> {N(sn.n, vs, << >>) : vs \in Seqs12(ValsOf(sn.ty, sn.mod, wide), sn.user)
                                                    \cup (IF wide THEN Seqs3(ValsOf(sn.ty, sn.mod, wide)) ELSE {})}
-    [] sn.k = "cont" -> {N(sn.n, << >>, ks) : ks \in (IF sn.pres THEN KidSeqs(sn.kids, 1, wide) ELSE KidSeqs(sn.kids, 1, wide) \ {<< >>})}
+    [] sn.k = "cont" -> {N(sn.n, << >>, ks) : ks \in {x \in (IF sn.pres THEN KidSeqs(sn.kids, 1, wide) ELSE KidSeqs(sn.kids, 1, wide) \ {<< >>}) : CasesOK(sn, x)}}
     [] sn.k = "list" ->
          LET keyleaf == Child(sn, sn.key)
              others == SelectSeq(sn.kids, LAMBDA x : x.n # sn.key)
@@ -167,6 +217,9 @@ FullTrees(S) == {t \in Trees(S, FALSE) : ItemCount(t) = Cardinality(S)}
 \* numbers or as text, so that "the order the user gave" is no order a program would produce by itself.
 Scr(i) == (i * 37) % 101            \* 1..100 -> 1..100, injective (101 is prime)
 MaxSize == 100
+RECURSIVE SmallSpace(_), NthVal(_, _)
+SmallSpace(ty) == IF ty.b = "union" THEN \A i \in 1..Len(ty.mem) : SmallSpace(ty.mem[i])
+                  ELSE ty.b \in {"boolean", "enumeration", "identityref", "empty"}
 NthVal(ty, i) ==
   LET s == ToString(Scr(i)) IN
   CASE ty.b = "int8" -> IF Scr(i) >= 50 THEN ToString(Scr(i) - 50) ELSE "-" \o ToString(50 - Scr(i))
@@ -174,8 +227,8 @@ NthVal(ty, i) ==
     [] ty.b \in IntTypes -> s
     [] ty.b = "decimal64" -> IF ty.fd >= 4 THEN "1." \o s \o "5" ELSE s \o ".5"
     [] ty.b = "string" -> IF ty.pat = "digits" THEN s ELSE "e" \o s
+    [] ty.b = "union" -> NthVal(ty.mem[MinOf({j \in 1..Len(ty.mem) : ~SmallSpace(ty.mem[j])})], i)
 \* n values of a type (fewer when the value space is smaller)
-SmallSpace(ty) == ty.b \in {"boolean", "enumeration", "identityref", "empty"}
 SizedVals(ty, mod, n) ==
   IF SmallSpace(ty) THEN LET pool == IF ty.b = "empty" THEN <<"">> ELSE ValsOf(ty, mod, FALSE) IN SubSeq(pool, 1, IF n < Len(pool) THEN n ELSE Len(pool))
   ELSE Mat([i \in 1..n |-> NthVal(ty, i)])
@@ -192,6 +245,12 @@ Arrange(s, arr) ==
 \* List entries: every entry has its key; leaves besides the key are present in every other entry (in every
 \* entry when the list has a unique constraint, with distinct values); nested collections and containers in
 \* the first entry only.
+\* of the nodes of several cases of a choice those of the first case met are kept
+RECURSIVE KeepCase(_, _, _)
+KeepCase(psn, kids, i) ==
+  IF i > Len(kids) THEN << >>
+  ELSE (IF \E j \in 1..(i - 1) : OtherCase(Child(psn, kids[j].n).cs, Child(psn, kids[i].n).cs) THEN << >> ELSE <<kids[i]>>)
+       \o KeepCase(psn, kids, i + 1)
 RECURSIVE SizedNode(_, _, _, _), SizedKids(_, _, _, _, _)
 SizedKids(kids, n, idx, arr, i) ==
   IF i > Len(kids) THEN << >> ELSE <<SizedNode(kids[i], n, idx, arr)>> \o SizedKids(kids, n, idx, arr, i + 1)
@@ -200,7 +259,7 @@ SizedNode(sn, n, idx, arr) ==
                         ELSE IF SmallSpace(sn.ty) THEN LET pool == ValsOf(sn.ty, sn.mod, FALSE) IN N(sn.n, <<pool[((idx - 1) % Len(pool)) + 1]>>, << >>)
                         ELSE N(sn.n, <<NthVal(sn.ty, idx)>>, << >>)
     [] sn.k = "ll" -> N(sn.n, SizedVals(sn.ty, sn.mod, n), << >>)
-    [] sn.k = "cont" -> N(sn.n, << >>, Arrange(SizedKids(sn.kids, n, idx, arr, 1), arr))
+    [] sn.k = "cont" -> N(sn.n, << >>, Arrange(KeepCase(sn, SizedKids(sn.kids, n, idx, arr, 1), 1), arr))
     [] sn.k = "list" ->
          LET keyleaf == Child(sn, sn.key)
              keys == SizedVals(keyleaf.ty, keyleaf.mod, n)
@@ -249,6 +308,13 @@ AltScalars == {JNum("1.7"), JNum("5"), JNum("-1"), JNum("300"), JNum("1844674407
                JStr("1.50"), JStr("2"), JStr("true"), JStr("TRUE"),
                JStr("zz:loc-id"), JStr("a:loc-id"), JStr("b:for-id"), JStr("loc-id"), JStr("for-id"), JTrue, JFalse, JNull, JArr(<< >>, TRUE), JObj(<< >>),
                JArr(<<JNum("5")>>, TRUE), JArr(<<JNull>>, TRUE), JStr("")}
+\* the value at a scalar position spelled with a module name in front, "<module>:<value>": the leaf's own module,
+\* the other module, no module of the schema, the own module twice.  RFC 7951 6.8 / RFC 6020 9.10.3 give such a
+\* prefix a meaning for identityref values only; for every other type the text is the value as it stands
+ModPrefixes == {"a", "b", "zz"}
+Decorated(v) == IF v.t \in {"str", "num", "true", "false"}
+                THEN {JStr(m \o ":" \o LitOf(v)) : m \in ModPrefixes} \cup {JStr(m \o ":" \o m \o ":" \o LitOf(v)) : m \in {"a", "b"}}
+                ELSE {}
 RECURSIVE DocMut(_)
 DocMut(v) ==
   CASE v.t = "obj" ->
@@ -261,7 +327,28 @@ DocMut(v) ==
          \cup {JArr(RemoveAt(v.a, i), v.ord) : i \in 1..Len(v.a)}
          \cup {JArr(InsertAfter(v.a, i, v.a[i]), v.ord) : i \in 1..Len(v.a)}
          \cup {JNum("5"), JObj(<< >>)}
-    [] OTHER -> AltScalars \ {v}
+    [] OTHER -> (AltScalars \cup Decorated(v)) \ {v}
+
+\* Values of the wrong shape (RFC 7951 section 5 prescribes an object for a container and for a list entry, an
+\* array for a list and for a leaf-list, a scalar for a leaf): at every position of a document - the document
+\* itself, every member value, every array element, so every kind of schema node the schema has - every kind
+\* of JSON value: the scalars, the empty object and array, an object with an unknown member, the value that
+\* stands there and its first component (an entry where the list is expected, a member's value where the object
+\* is), each of them as it is, inside one and two arrays, in an array beside a scalar and beside an object,
+\* twice in an array, and inside an object under the position's own member name.
+ShapeKinds(orig) == {JStr("x"), JNum("5"), JTrue, JNull, JObj(<< >>), JArr(<< >>, TRUE), JObj(<<Mem("zz", JNum("1"))>>), orig}
+                    \cup (IF orig.t = "arr" /\ Len(orig.a) > 0 THEN {orig.a[1]} ELSE {})
+                    \cup (IF orig.t = "obj" /\ Len(orig.m) > 0 THEN {orig.m[1].v} ELSE {})
+Wraps(k, nm) == {k, JArr(<<k>>, TRUE), JArr(<<JArr(<<k>>, TRUE)>>, TRUE), JArr(<<k, JStr("x")>>, TRUE),
+                 JArr(<<JObj(<< >>), k>>, TRUE), JArr(<<k, k>>, TRUE), JObj(<<Mem(nm, k)>>)}
+Shapes(orig, nm) == UNION {Wraps(k, nm) : k \in ShapeKinds(orig)} \ {orig}
+RECURSIVE ShapeMut(_, _)
+ShapeMut(v, nm) ==
+  Shapes(v, nm)
+  \cup (CASE v.t = "obj" -> UNION {{JObj([v.m EXCEPT ![i] = Mem(v.m[i].k, x)]) : x \in ShapeMut(v.m[i].v, v.m[i].k)} : i \in 1..Len(v.m)}
+         [] v.t = "arr" -> UNION {{JArr([v.a EXCEPT ![i] = x], v.ord) : x \in ShapeMut(v.a[i], nm)} : i \in 1..Len(v.a)}
+         [] OTHER -> {})
+JShapeMutants(doc) == {JToks(d) : d \in ShapeMut(doc, "zz")}
 \* token-level: one structural token dropped (always ill-formed), or doubled
 TokDrops(ts) == {RemoveAt(ts, i) : i \in {j \in 1..Len(ts) : ts[j].c \in {"{", "}", "[", "]", ":", ","}}}
                 \cup {InsertAfter(ts, i, ts[i]) : i \in {j \in 1..Len(ts) : ts[j].c \in {"{", "}", ","}}}
@@ -271,9 +358,15 @@ JMutants(doc) == {JToks(d) : d \in DocMut(doc)} \cup TokDrops(JToks(doc))
 \* an unknown element added, a tag dropped, an end tag renamed
 AltTexts == {"1.7", "5", "-1", "300", "x", "", "true", "zz:loc-id", "18446744073709551616", "1e2", "100.0",
              "a:loc-id", "b:for-id", "loc-id", "for-id", "+5", "007", "1.50", "2", "TRUE", "false"}
+\* the text of an element spelled with a module name in front, the prefix undeclared or declared for that
+\* module's namespace on the element
+Decl(p, uri) == [p |-> p, uri |-> uri]
+XDecorated(e) == IF e.text = "" THEN {}
+                 ELSE UNION {{[e EXCEPT !.text = m \o ":" \o e.text, !.q = NoQ, !.decl = d] : d \in {<< >>, <<Decl(m, NsOf(m))>>}} : m \in ModPrefixes}
+                      \cup {[e EXCEPT !.text = m \o ":" \o m \o ":" \o e.text, !.q = NoQ] : m \in {"a", "b"}}
 RECURSIVE ElMut(_)
 ElMut(e) ==
-  (IF e.kids = << >> THEN {[e EXCEPT !.text = x, !.q = NoQ] : x \in AltTexts \ {e.text}}
+  (IF e.kids = << >> THEN {[e EXCEPT !.text = x, !.q = NoQ] : x \in AltTexts \ {e.text}} \cup XDecorated(e)
                           \cup {[e EXCEPT !.kids = <<XEl("x", e.ns, "5", NoQ, << >>, FALSE)>>]}
    ELSE {[e EXCEPT !.text = "x"]})
   \cup UNION {{[e EXCEPT !.kids[i] = x] : x \in ElMut(e.kids[i])} : i \in 1..Len(e.kids)}
@@ -285,13 +378,32 @@ XTokDrops(ts) == {RemoveAt(ts, i) : i \in {j \in 1..Len(ts) : ts[j].c \in {"star
                  \cup {[ts EXCEPT ![i] = XEnd("zz")] : i \in {j \in 1..Len(ts) : ts[j].c = "end"}}
 XMutants(el) == {XToks(d) : d \in ElMut(el)} \cup XTokDrops(XToks(el))
 
+\* Content of the wrong shape (RFC 6020 7.5.7 - 7.8.5: a container and a list entry hold elements, a leaf and a
+\* leaf-list entry hold character data): at every element of a document every kind of content - nothing, text
+\* only, an unknown element, the element inside itself once and twice, its parent inside it, its first child
+\* alone, each with and without character data in front (mixed content), its own content plus itself
+XContents(e, parent) ==
+  LET unk == XEl("zz", e.ns, "5", NoQ, << >>, FALSE)
+      in1 == [e EXCEPT !.q = NoQ]
+      in2 == [e EXCEPT !.q = NoQ, !.text = "", !.kids = <<in1>>]
+      par == [parent EXCEPT !.q = NoQ, !.text = "", !.kids = <<in1>>]
+      kidsets == {<< >>, <<unk>>, <<in1>>, <<in2>>, <<par>>, <<in1, unk>>} \cup (IF e.kids # << >> THEN {<<e.kids[1]>>} ELSE {})
+  IN {[text |-> t, kids |-> ks] : t \in {"", "x"}, ks \in kidsets} \cup {[text |-> e.text, kids |-> Append(e.kids, in1)]}
+RECURSIVE XShapeMut(_)
+XShapeMut(e) ==
+  UNION { {[e EXCEPT !.kids[i] = [e.kids[i] EXCEPT !.text = c.text, !.kids = c.kids, !.q = NoQ]]
+             : c \in XContents(e.kids[i], e) \ {[text |-> e.kids[i].text, kids |-> e.kids[i].kids]}}
+          \cup {[e EXCEPT !.kids[i] = x] : x \in XShapeMut(e.kids[i])}
+          : i \in 1..Len(e.kids) }
+  \cup {[e EXCEPT !.text = "x"]}
+XShapeMutants(el) == {XToks(d) : d \in XShapeMut(el)}
+
 \* XML documents from the document grammar rather than from the encoders' output: at every leaf element
 \* of a document, element text x namespace declarations on the element and on its parent (XML Namespaces:
 \* prefix = text before the first colon, innermost declaration in scope): text equal to a declared prefix,
 \* prefix with empty local part, empty prefix, two colons, declared / undeclared / shadowed / foreign
 \* prefixes in front of names that are and are not identities, several declarations, and the element
 \* itself in the inherited or in another default namespace
-Decl(p, uri) == [p |-> p, uri |-> uri]
 NsDecls == { [own |-> << >>, anc |-> << >>],
              [own |-> <<Decl("p", "urn:b")>>, anc |-> << >>],
              [own |-> <<Decl("p", "urn:a")>>, anc |-> << >>],
@@ -320,16 +432,21 @@ BigTree(S) == CHOOSE t \in FullTrees(S) : \A u \in FullTrees(S) : Len(XToks(EncX
 FuzzItems == {1, 6, 7, 8, 10, 12, 13, 16, 20}
 JAlphabet == <<Tk("{", ""), Tk("}", ""), Tk("[", ""), Tk("]", ""), Tk(":", ""), Tk(",", ""),
                Tk("str", "a:c"), Tk("str", "i8"), Tk("str", "s"), Tk("str", "lu"), Tk("str", "k"), Tk("str", "e"),
-               Tk("str", "x"), Tk("num", "5"), Tk("num", "1.7"), Tk("num", "1e2"), Tk("null", ""), Tk("true", ""), Tk("raw", "x")>>
+               Tk("str", "x"), Tk("str", "a:5"), Tk("num", "5"), Tk("num", "1.7"), Tk("num", "1e2"), Tk("null", ""), Tk("true", ""), Tk("raw", "x")>>
 \* contexts: (prefix, suffix) token sequences around the enumerated class string
 JContexts == << [pre |-> << >>, suf |-> << >>],
                 [pre |-> <<Tk("{", ""), Tk("str", "a:c"), Tk(":", ""), Tk("{", "")>>, suf |-> <<Tk("}", ""), Tk("}", "")>>],
                 [pre |-> <<Tk("{", ""), Tk("str", "a:c"), Tk(":", ""), Tk("{", ""), Tk("str", "lu"), Tk(":", ""), Tk("[", ""), Tk("{", "")>>,
-                 suf |-> <<Tk("}", ""), Tk("]", ""), Tk("}", ""), Tk("}", "")>>] >>
+                 suf |-> <<Tk("}", ""), Tk("]", ""), Tk("}", ""), Tk("}", "")>>],
+                \* the elements of the array of a list, of a leaf-list
+                [pre |-> <<Tk("{", ""), Tk("str", "a:c"), Tk(":", ""), Tk("{", ""), Tk("str", "lu"), Tk(":", ""), Tk("[", "")>>,
+                 suf |-> <<Tk("]", ""), Tk("}", ""), Tk("}", "")>>],
+                [pre |-> <<Tk("{", ""), Tk("str", "a:c"), Tk(":", ""), Tk("{", ""), Tk("str", "llu"), Tk(":", ""), Tk("[", "")>>,
+                 suf |-> <<Tk("]", ""), Tk("}", ""), Tk("}", "")>>] >>
 XAlphabet == <<XStart("c", "urn:a", << >>), XEnd("c"), XStart("i8", "urn:a", << >>), XEnd("i8"), XStart("s", "urn:a", << >>), XEnd("s"),
                XStart("lu", "urn:a", << >>), XEnd("lu"), XStart("k", "urn:a", << >>), XEnd("k"), XStart("e", "urn:a", << >>), XEnd("e"),
                XStart("id", "urn:a", <<[p |-> "q", uri |-> "urn:b"]>>), XEnd("id"),
-               XText("5"), XText("1.7"), XText("x"), XText("q:for-id"), XText("q"), XRaw("{3C}")>>
+               XText("5"), XText("1.7"), XText("x"), XText("a:5"), XText("q:for-id"), XText("q"), XRaw("{3C}")>>
 XContexts == << [pre |-> << >>, suf |-> << >>],
                 [pre |-> <<XStart("root", "", << >>), XStart("c", "urn:a", << >>)>>, suf |-> <<XEnd("c"), XEnd("root")>>],
                 [pre |-> <<XStart("root", "", << >>), XStart("c", "urn:a", << >>), XStart("lu", "urn:a", << >>)>>,
